@@ -10,7 +10,7 @@
 //
 // Oracle (Go side): exact equality after the round trip.  Model (Coq side): the wire bytes of
 // stacks/transforms made of fully modelled elements (hex, base64, XOR-CFB, CBK, B64 shift, DNS)
-// are recomputed by the Gallina model and compared (literal or length+FNV-1a-64).
+// are recomputed by the Gallina model and compared (literal or length + a 64-bit xorshift digest).
 package main
 
 import (
@@ -45,10 +45,18 @@ var (
 
 // paySpec describes a payload either literally or by a generator the Coq model repeats.
 type paySpec struct {
-	Kind int    `json:"kind"` // -1 literal; 0 LCG bytes; 1 zeros; 2 0xFF; 3 counter; 4 LCG over a 4-letter alphabet (compressible)
+	Kind int    `json:"kind"` // -1 literal; 0 xorshift64 bytes; 1 zeros; 2 0xFF; 3 counter; 4 xorshift64 over a 4-letter alphabet (compressible)
 	Seed uint64 `json:"seed"`
 	N    int    `json:"n"`
 	Lit  []int  `json:"lit,omitempty"`
+}
+
+// xs64 is one xorshift64 step (13, 7, 17): cheap for the Coq model to repeat (no multiplication).
+func xs64(x uint64) uint64 {
+	x ^= x << 13
+	x ^= x >> 7
+	x ^= x << 17
+	return x
 }
 
 func genBytes(kind int, seed uint64, n int) []byte {
@@ -57,8 +65,8 @@ func genBytes(kind int, seed uint64, n int) []byte {
 	for i := range b {
 		switch kind {
 		case 0:
-			s = s*6364136223846793005 + 1442695040888963407
-			b[i] = byte(s >> 56)
+			s = xs64(s)
+			b[i] = byte(s)
 		case 1:
 			b[i] = 0
 		case 2:
@@ -66,8 +74,8 @@ func genBytes(kind int, seed uint64, n int) []byte {
 		case 3:
 			b[i] = byte(uint64(i) + seed)
 		case 4:
-			s = s*6364136223846793005 + 1442695040888963407
-			b[i] = byte(65 + (s>>62)&3)
+			s = xs64(s)
+			b[i] = byte(65 + s&3)
 		}
 	}
 	return b
@@ -96,21 +104,46 @@ func litPay(b []byte) paySpec {
 	return paySpec{Kind: -1, N: len(b), Lit: l}
 }
 
-func fnv64a(b []byte) uint64 {
-	h := uint64(14695981039346656037)
+// hash64 is the digest long wires are compared by: h = xs64(h) ^ c, position sensitive, and cheap
+// for the Coq model to repeat.
+func hash64(b []byte) uint64 {
+	h := uint64(88172645463325252)
 	for _, c := range b {
-		h ^= uint64(c)
-		h *= 1099511628211
+		h = xs64(h) ^ uint64(c)
 	}
 	return h
 }
 
-// wireCoq prints the observed wire: literally when short, else as length and FNV-1a-64.
+// wireCoq prints the observed wire: literally when short, else as length and digest.
 func wireCoq(w []byte) string {
 	if len(w) <= 384 {
 		return "(WLit " + vh.Bytes(w) + ")"
 	}
-	return fmt.Sprintf("(WHash %d %d)", len(w), fnv64a(w))
+	return fmt.Sprintf("(WHash %d %d)", len(w), hash64(w))
+}
+
+// dnsWireCoq prints a DNS wire as the digest/literal plus the random bytes drawn for each packet
+// (id bytes at offsets 0, 1; in the server role bytes 9, 12..15 of the answer record that follows
+// the question).  The packet boundaries are the lengths the real decodePacket consumes.
+func dnsWireCoq(w []byte) string {
+	var draws []string
+	o := 0
+	for _, n := range transform.VerifC07PacketLens(w) {
+		p := w[o : o+n]
+		d := []byte{p[0], p[1]}
+		if transform.VerifC07DNSServer {
+			s := 12
+			for s < len(p) && p[s] != 0 {
+				s += int(p[s]) + 1
+			}
+			if a := s + 5; a+16 <= len(p) {
+				d = append(d, p[a+9], p[a+12], p[a+13], p[a+14], p[a+15])
+			}
+		}
+		draws = append(draws, vh.Bytes(d))
+		o += n
+	}
+	return "(WDns " + wireCoq(w) + " " + vh.List(draws) + ")"
 }
 
 // ---------------------------------------------------------------- chunkings
@@ -642,7 +675,7 @@ func runStack(c stackCase) {
 	if sc, ok := stackCoq(c.Stack, len(payload)); err == nil && ok {
 		// one model case per distinct (stack, payload, observed wire)
 		sk := sc + c.Pay.coq()
-		h := fnv64a(wire)
+		h := hash64(wire)
 		if v, ok := wireSeen[sk]; !ok || v != h {
 			wireSeen[sk] = h
 			out.Add(fmt.Sprintf("CStack %s %s %s", sc, c.Pay.coq(), wireCoq(wire)), class+"-model", nontrivial, c)
@@ -708,16 +741,12 @@ func runTransform(c transCase) {
 		out.Count(class, fmt.Sprint(c), len(payload) > 0)
 		return
 	}
-	// model case: the wire (DNS: literal, because of the random id bytes; too long -> oracle only)
+	// model case: the wire (DNS: with the random bytes of every packet)
 	switch c.T.Kind {
 	case "b64":
 		out.Add(fmt.Sprintf("CTrans %s %s %s", c.T.coq(), c.Pay.coq(), wireCoq(wire)), class+"-model", len(payload) > 0, c)
 	case "dns":
-		if len(wire) > 5200 {
-			out.Count(class, fmt.Sprint(c), len(payload) > 0)
-			return
-		}
-		out.Add(fmt.Sprintf("CTrans %s %s (WLit %s)", c.T.coq(), c.Pay.coq(), vh.Bytes(wire)), class+"-model", len(payload) > 0, c)
+		out.Add(fmt.Sprintf("CTrans %s %s %s", c.T.coq(), c.Pay.coq(), dnsWireCoq(wire)), class+"-model", len(payload) > 0, c)
 	}
 	_ = failed
 }
@@ -777,6 +806,11 @@ func (c fullCase) packet() *com.Packet {
 		n.Tags = append([]uint32(nil), c.Tags...)
 	}
 	copy(n.Device[:], genBytes(0, c.Dev, len(n.Device)))
+	if n.Device[0] == 0 {
+		// device.ID.Read rejects an ID whose first byte is 0 (ID.Empty; local.UUID never has one):
+		// the packet codec's domain (C01), not a wrapper matter
+		n.Device[0] = 1
+	}
 	if b := c.Pay.bytes(); len(b) > 0 {
 		n.Write(b)
 	}
@@ -869,16 +903,17 @@ func runFull(c fullCase) {
 		}
 	}
 	// model: wire = transform(stack(marshal bytes)); the marshal bytes are those of the real Marshal
-	if sc, ok := stackCoq(c.Stack, len(plain)); err == nil && ok && len(plain) <= 6000 {
+	if sc, ok := stackCoq(c.Stack, len(plain)); err == nil && ok && (thorough || len(plain) <= 6000) {
 		w := wireCoq(wire)
 		if c.T.Kind == "dns" {
-			if len(wire) > 5200 {
-				out.Count(class, fmt.Sprint(c), true)
-				return
-			}
-			w = "(WLit " + vh.Bytes(wire) + ")"
+			w = dnsWireCoq(wire)
 		}
-		out.Add(fmt.Sprintf("CFull %s %s %s %s", sc, c.T.coq(), litPay(plain).coq(), w), class+"-model", true, c)
+		// the marshalled packet ends with its payload: header and tags literally, the payload by its generator
+		pc := litPay(plain).coq()
+		if pb := c.Pay.bytes(); c.Pay.Kind >= 0 && len(pb) > 0 && bytes.HasSuffix(plain, pb) {
+			pc = "(PCat " + litPay(plain[:len(plain)-len(pb)]).coq() + " " + c.Pay.coq() + ")"
+		}
+		out.Add(fmt.Sprintf("CFull %s %s %s %s", sc, c.T.coq(), pc, w), class+"-model", true, c)
 		return
 	}
 	out.Count(class, fmt.Sprint(c), true)
@@ -972,7 +1007,7 @@ func randPay(r *vh.Rand, n int) paySpec {
 	case 3, 4:
 		k = 4
 	}
-	return paySpec{Kind: k, Seed: r.U64() >> 1, N: n}
+	return paySpec{Kind: k, Seed: r.U64()>>1 | 1, N: n}
 }
 
 func maxBlock(ws []elem) int {
